@@ -299,5 +299,33 @@ def run(F, rep):
                 rep.check(not bad, 'C07.R1', '%s|%s' % (nm, render(c)[:50]), g.where(c), '%s fetches the imported child only when `%s`' % (g.short, '` and `'.join(bad)), 'depends on isImport() and earlier failures only')
     if n_r < 3:
         raise AnalysisBroken('C07.R1: nested fetch calls: %d found, 4 confirmed' % n_r)
+    # ... and the function's own positive answer: "this import source already has a model" (left by an earlier, possibly failed, pass; clearImports
+    # only forgets the top-level model's) is no reason to answer true before fetchImportSource and the walk below it ran in THIS pass
+    from engines import facts_x as _fx
+    n_r2 = 0
+    for nm in ('fetchUnits', 'fetchComponent'):
+        g = F.fn1('Importer::ImporterImpl::' + nm)
+        fis = [c for c in g.walk() if c.get('k') == 'Call' and c.get('fn') == 'fetchImportSource']
+        if not fis:
+            raise AnalysisBroken('C07.R1: %s no longer calls fetchImportSource' % nm)
+        for r in g.walk():
+            if r.get('k') != 'Return' or not r.get('c') or g.enclosing_lambda(r) is not None:
+                continue
+            e = r['c'][0]
+            if e.get('k') == 'Bool' and not e.get('v'):
+                continue
+            n_r2 += 1
+            if any(g.cfg().node_dominates(c, r) for c in fis):
+                rep.ok('C07.R1', '%s|return@%d after the fetch' % (nm, n_r2), g.where(r), 'reached after fetchImportSource')
+                continue
+            memo = sorted(t for t, tr in (_fx(F, g, r) or set()) if tr and ('hasModel()' in t or 'isResolved()' in t or ('->model()' in t and 'nullptr' in t and '!=' in t)))
+            rep.check(not memo, 'C07.R1', '%s|return@%d before the fetch' % (nm, n_r2), g.where(r),
+                      '%s answers `%s` because `%s`, without fetching anything in this pass: a model left on the import source by an earlier (failed) resolution makes resolveImports report success while the chain below is unresolved' % (g.short, render(e)[:30], '` and `'.join(memo)),
+                      'does not depend on a model left by an earlier pass')
+    if n_r2 < 4:
+        raise AnalysisBroken('C07.R1: positive returns of fetchUnits/fetchComponent: %d found, 5 confirmed' % n_r2)
+    # the path stack of Units::isDefined()/isResolved() (what resolveImports/hasUnresolvedImports/flattenModel finally ask): shared stacks stay balanced
+    import recursion as _rec7
+    _rec7.rule_stack_discipline(F, rep, 'C07.P1', lambda g_: g_.file.endswith(('/units.cpp', '/importer.cpp', '/component.cpp', '/importedentity.cpp')), 1, 'units.cpp, importer.cpp and component.cpp')
 
 
